@@ -4,6 +4,7 @@ import Proofs.C05.PsbtMap
 import Proofs.C05.Misc
 import Proofs.C05.P2p
 import Proofs.C05.PsbtTyped
+import Proofs.C05.Json
 /-!
 # C05 — wire formats are canonical: parse and serialize are mutually inverse
 
@@ -671,6 +672,85 @@ example : (fromRecs specIn [([0xfc, 9], [5]), ([4], []), ([3], [0, 0, 0, 0]), ([
     ∧ (fromRecs specIn [([0xfc, 9], [5]), ([4], []), ([3], [0, 0, 0, 0]), ([6, 2], [7])]).keyed = [(6, [2], [7])]
     ∧ (fromRecs specIn [([0xfc, 9], [5]), ([4], []), ([3], [0, 0, 0, 0]), ([6, 2], [7])]).unknown = [([0xfc, 9], [5])] := by
   decide
+
+/-! ## The JSON form (`to_dict` / `from_dict`) of OutPoint, Witness, TxIn, TxOut, Tx
+
+`Model/C05/Json.lean`: `toDict` / `fromDict cv` over a json value type (floats left out).  What other code
+computes is a parameter `e : Env` (script `asm`, BTC-decimal text of an amount and its reading, script
+`type`/`addresses`, the hash); the one law used is named (`TxOut.TextOk`).  `cv` is `check_validity`. -/
+section JsonForm
+open Btc.Json
+
+/-- `bytes.fromhex(b.hex()) == b`; `fromhex` also reads upper case and skips whitespace between octets, so
+    `toDict ∘ fromDict` normalises a hex string to lower case without spaces (examples below) -/
+theorem json_hex_round_trip (b : Bytes) : unhex (hexOf b) = some b := unhex_hexOf b
+
+/-- `OutPoint.from_dict(x.to_dict(), check_validity=cv) == x`: for every x when cv is off, for valid x when on -/
+theorem json_outpoint_round_trip (cv : Bool) (o : Json.OutPoint) (h : cv = false ∨ o.Valid) :
+    Json.OutPoint.fromDict cv o.toDict = .ok o := outpoint_round cv o h
+theorem json_witness_round_trip (w : List Bytes) : witnessFromDict (witnessToDict w) = .ok w := witness_round w
+/-- for ANY asm renderer: `script_from_dict` checks the `asm` against the renderer it was written by -/
+theorem json_script_round_trip (e : Env) (s : Bytes) : scriptFromDict e (scriptToDict e s) = .ok s := script_round e s
+theorem json_txin_round_trip (e : Env) (cv : Bool) (i : Json.TxIn) (h : cv = false ∨ i.Valid) :
+    Json.TxIn.fromDict e cv (i.toDict e) = .ok i := txin_round e cv i h
+/-- hypothesis `TextOk`: `sats_from_btc(str(btc_from_sats(v))) == v` for this value (amount.py, not modelled
+    here) and the object's network name is one of `NETWORKS` (checked by `ScriptPubKey` whatever cv says) -/
+theorem json_txout_round_trip (e : Env) (cv : Bool) (o : Json.TxOut) (ht : o.TextOk e) (h : cv = false ∨ o.Valid) :
+    Json.TxOut.fromDict e cv (o.toDict e) = .ok o := txout_round e cv o ht h
+theorem json_tx_round_trip (e : Env) (cv : Bool) (t : Json.Tx) (ht : ∀ o ∈ t.vout, o.TextOk e)
+    (h : cv = false ∨ t.Valid) : Json.Tx.fromDict e cv (t.toDict e) = .ok t := tx_round e cv t ht h
+
+/-- the other direction, as the normal form it is (`toDict ∘ fromDict` is not the identity: hex case and
+    spacing, a bare hex script, an absent `asm` or `network`, extra keys, the derived keys are rewritten):
+    whatever `from_dict` accepted, the dict `to_dict` writes for it reads back (nested check off, as the
+    enclosing class calls it) to the same object -- one round reaches the fixed point -/
+theorem json_tx_normal_form (e : Env) (cv : Bool) (j : J) (t : Json.Tx) (_h : Json.Tx.fromDict e cv j = .ok t)
+    (ht : ∀ o ∈ t.vout, o.TextOk e) : Json.Tx.fromDict e false (t.toDict e) = .ok t :=
+  tx_round e false t ht (Or.inl rfl)
+theorem json_outpoint_normal_form (cv : Bool) (j : J) (o : Json.OutPoint) (_h : Json.OutPoint.fromDict cv j = .ok o) :
+    Json.OutPoint.fromDict false o.toDict = .ok o := outpoint_round false o (Or.inl rfl)
+
+/-- the txid, hash, size, vsize and weight in a transaction's dict are those of its octets (any hash) -/
+theorem json_tx_dict_reports_bytes (e : Env) (t : Json.Tx) (hv : Wire.Tx.StructValid t.toWire) :
+    Json.Tx.toDict e t = .obj [
+      (['t', 'x', 'i', 'd'], .str (hexOf (e.H (Wire.Tx.ser false t.toWire)).reverse)),
+      (['h', 'a', 's', 'h'], .str (hexOf (e.H (Wire.Tx.ser true t.toWire)).reverse)),
+      (['v', 'e', 'r', 's', 'i', 'o', 'n'], .num t.version),
+      (['s', 'i', 'z', 'e'], .num ((Wire.Tx.ser true t.toWire).length : Nat)),
+      (['v', 's', 'i', 'z', 'e'], .num (((3 * (Wire.Tx.ser false t.toWire).length + (Wire.Tx.ser true t.toWire).length + 3) / 4 : Nat))),
+      (['w', 'e', 'i', 'g', 'h', 't'], .num ((3 * (Wire.Tx.ser false t.toWire).length + (Wire.Tx.ser true t.toWire).length : Nat))),
+      (['l', 'o', 'c', 'k', 't', 'i', 'm', 'e'], .num t.lockTime),
+      (['v', 'i', 'n'], .arr (t.vin.map (Json.TxIn.toDict e))),
+      (['v', 'o', 'u', 't'], .arr (t.vout.map (Json.TxOut.toDict e)))] := tx_dict_reports_bytes e t hv
+
+/-- the keys each `to_dict` writes, in order, are the ones read off the syntax tree of the source each run -/
+theorem json_keys_regenerated (e : Env) (o : Json.OutPoint) (w : List Bytes) (s : Bytes) (i : Json.TxIn)
+    (x : Json.TxOut) (t : Json.Tx) :
+    o.toDict.keys = Gen.Wire.JSON_OUTPOINT_KEYS.map String.toList ∧
+    (witnessToDict w).keys = Gen.Wire.JSON_WITNESS_KEYS.map String.toList ∧
+    (scriptToDict e s).keys = Gen.Wire.JSON_SCRIPT_KEYS.map String.toList ∧
+    (i.toDict e).keys = Gen.Wire.JSON_TXIN_KEYS.map String.toList ∧
+    (x.toDict e).keys = Gen.Wire.JSON_TXOUT_KEYS.map String.toList ∧
+    (t.toDict e).keys = Gen.Wire.JSON_TX_KEYS.map String.toList := by
+  simp only [Json.OutPoint.toDict, witnessToDict, scriptToDict, Json.TxIn.toDict, Json.TxOut.toDict, Json.Tx.toDict,
+    J.keys, List.map_cons, List.map_nil]
+  decide
+
+-- upper-case hex and spaces between octets are read (and come back lower case); a bool is not an index; an
+-- odd-length hex string, a missing key, an index above 2^32-1 (validity on) are refused -- and kept with it off
+example : Json.OutPoint.fromDict true (.obj [(['t','x','i','d'], .str (List.replicate 32 'A' ++ [' '] ++ List.replicate 32 'b')),
+      (['v','o','u','t'], .num 1)]) = .ok ⟨List.replicate 16 0xAA ++ List.replicate 16 0xBB, 1⟩ := by decide
+example : hexOf [0xAB, 0x0f] = ['a', 'b', '0', 'f'] ∧ unhex ['A', 'B', ' ', '0', 'F'] = some [0xAB, 0x0f]
+    ∧ unhex ['a', 'b', '0'] = none ∧ unhex ['a', ' ', 'b'] = none := by decide
+example : Json.OutPoint.fromDict true (.obj [(['t','x','i','d'], .str (List.replicate 64 '0')), (['v','o','u','t'], .bool true)]) = .error .type
+    ∧ Json.OutPoint.fromDict true (.obj [(['t','x','i','d'], .str (List.replicate 64 '0'))]) = .error .value
+    ∧ Json.OutPoint.fromDict true (.obj [(['t','x','i','d'], .str (List.replicate 64 '0')), (['v','o','u','t'], .num 4294967296)]) = .error .value
+    ∧ Json.OutPoint.fromDict false (.obj [(['t','x','i','d'], .str (List.replicate 64 '0')), (['v','o','u','t'], .num 4294967296)])
+        = .ok ⟨List.replicate 32 0, 4294967296⟩
+    ∧ Json.OutPoint.fromDict true (.arr []) = .error .type := by decide
+example : (⟨List.replicate 32 7, 5⟩ : Json.OutPoint).Valid := by decide
+
+end JsonForm
 
 -- non-vacuity (CompactSize): the hypotheses are met by concrete non-trivial values on each width
 example : Gen.VarInt.serialize 252 = .ok [252] := by decide
